@@ -316,8 +316,6 @@ def build_grown(spec, rng, theta, k, backend="lambda"):
     r_ = rng.random()
     if r_ < 0.3:
         m.state_list = list(rest)
-    elif r_ < 0.45:
-        m.state_list = " ".join(rest)          # a bare string of names
     else:
         for s_ in rest:
             m.state_list = s_ if rng.random() < 0.6 else [s_]
